@@ -1241,6 +1241,12 @@ func (fx *Fx) specBuiltin(st *State, call *ast.CallExpr) ([]Val, bool) {
 	case "fmtU":
 		a := fx.eval(st, call.Args[0], true)
 		return []Val{{T: types.Typ[types.String], S: SStr, X: app("fmtU", a.X)}}, true
+	case "parseIok":
+		a := fx.eval(st, call.Args[0], true)
+		return boolV(app("parseI_ok", a.X)), true
+	case "parseIval":
+		a := fx.eval(st, call.Args[0], true)
+		return intV(app("parseI_val", a.X)), true
 	case "parseUok":
 		a := fx.eval(st, call.Args[0], true)
 		return boolV(app("parseU_ok", a.X)), true
@@ -1396,6 +1402,14 @@ func (fx *Fx) specBuiltin(st *State, call *ast.CallExpr) ([]Val, bool) {
 		return boolV(or(app("=", a.X, "nil"), app("<=", app(sym("birth"), a.X), fmt.Sprint(st.births)))), true
 	case "ncalls":
 		return intV(fx.trCount(st)), true
+	case "timenow", "timesince":
+		// the value the most recent time.Now() / time.Since() call returned on this path
+		g, ok := st.ghost[map[string]string{"timenow": "lastnow", "timesince": "lastsince"}[id.Name]]
+		if !ok {
+			// no such call on this path: an arbitrary value (clauses that use it are guarded by the path's own conditions)
+			return intV(fx.d.freshConst(id.Name+"_none", SInt)), true
+		}
+		return []Val{g}, true
 	case "lastctxerr":
 		// trace length at the moment a context's Err() was last called on this path (-1: never)
 		if g, ok := st.ghost["ctxerrat"]; ok {
